@@ -124,8 +124,9 @@ def bind_args(prog, f, call, g):
 
 
 class Effects:
-    def __init__(self, prog, extra_ref_producers=(), tmp_attrs=('tmp_dir',)):
+    def __init__(self, prog, extra_ref_producers=(), tmp_attrs=('tmp_dir',), attr_tags=None):
         self.prog = prog
+        self.attr_tags = dict(attr_tags or {})
         self.memo = {}
         self.active = set()
         self.ref_producers = set(REF_PRODUCERS) | set(extra_ref_producers)
@@ -166,6 +167,8 @@ class Effects:
                 return True
             if isinstance(e.func, ast.Attribute) and e.func.attr in ('get_temp_filename',):
                 return True
+            if n == 'str' and len(e.args) == 1 and isinstance(e.args[0], ast.Name) and env.get(e.args[0].id) == {'INT'}:
+                return True
         if isinstance(e, ast.Subscript) and isinstance(e.value, ast.Call) and \
                 ast.unparse(e.value.func) == 'os.path.split' and isinstance(e.slice, ast.Constant) \
                 and e.slice.value in (1, -1):
@@ -176,7 +179,7 @@ class Effects:
                 return False
             deps = set()
             for p in ps:
-                if p in ('BASENAME', 'RELSAFE'):
+                if p in ('BASENAME', 'RELSAFE', 'INT'):
                     continue
                 if p.startswith('const:') and const_ok(p[6:], allow_empty=True):
                     continue
@@ -202,6 +205,8 @@ class Effects:
             if isinstance(e.value, ast.Name) and e.value.id in ('self', 'cls'):
                 if e.attr in self.tmp_attrs:
                     return {'TMP'}
+                if e.attr in self.attr_tags:
+                    return {self.attr_tags[e.attr]}
                 return {'self.' + e.attr}
             return {'attr:' + ast.unparse(e)}
         if isinstance(e, ast.Call):
@@ -260,6 +265,8 @@ class Effects:
             env2 = dict(env)
             for gen in e.generators:
                 p = self.prov(gen.iter, env2, f, ctx)
+                if isinstance(gen.iter, ast.Call) and ast.unparse(gen.iter.func) == 'os.listdir':
+                    p = {'BASENAME'}
                 for x in ast.walk(gen.target):
                     if isinstance(x, ast.Name):
                         env2[x.id] = p
@@ -508,6 +515,8 @@ class Effects:
                 elif isinstance(s, (ast.For, ast.AsyncFor)):
                     expr_effects(s.iter, env, guards)
                     pv = self.prov(s.iter, env, f, ctx)
+                    if isinstance(s.iter, ast.Call) and ast.unparse(s.iter.func) == 'range':
+                        pv = {'INT'}
                     for x in ast.walk(s.target):
                         if isinstance(x, ast.Name):
                             env[x.id] = set(pv)
